@@ -1320,9 +1320,18 @@ def run_worker(eng, p):
         r.origin = (r.term, exprs.term, s)
         return r
 
+    interrupted = []
+
     def check_exprs(e, exprs):
-        if p.choose(2, 'check') == 1:
+        k = p.choose(3, 'check')
+        if k == 1:
             raise PyRaise(AnyError('check failed'))
+        if k == 2:
+            # the user interrupts ddSMT while the command runs (the
+            # sequential worker runs in the main process)
+            ki = KeyboardInterrupt()
+            interrupted.append(ki)
+            raise PyRaise(ki)
         v = mk.sbool(p, 'verdict')
         p.assume(z3.Implies(v.z, ACC(FLAT(exprs.term))))
         checked.append(exprs)
@@ -1344,6 +1353,14 @@ def run_worker(eng, p):
         del checked[:]
         del verdicts[:]
         out = outcome(eng, dd.g['_worker'], [task])
+        if interrupted:
+            p.oblige(f'C04/{N}/an-interrupt-is-not-swallowed',
+                     out.kind == 'raise' and out.value is interrupted[0],
+                     info={'outcome': repr(out), 'signature':
+                           'KeyboardInterrupt during a check is treated '
+                           'like a failing candidate: ddSMT cannot be '
+                           'interrupted'})
+            return
         p.oblige(f'C04/{N}/returns-a-result-on-every-path',
                  out.kind == 'return', info=repr(out))
         if out.kind != 'return':
